@@ -340,6 +340,9 @@ func contextBattery(c config, thorough bool) ([]ctxProbe, map[string]carrier) {
 			continue
 		}
 		push("listed-entry", e, e, "loader")
+		if !thorough && (ei+shift)%2 == 1 {
+			continue // quick tier: every node gets the look-alikes of every other entry (which half is drawn per node)
+		}
 		evil := evilHosts[rnd.Intn(len(evilHosts))]
 		for ki, v := range hostile(e, evil, "TOKEN") {
 			fresh := func() string { return strings.ReplaceAll(v.url, "TOKEN", token()) }
@@ -348,10 +351,11 @@ func contextBattery(c config, thorough bool) ([]ctxProbe, map[string]carrier) {
 				continue
 			}
 			// the same look-alike through the node's JSON-LD reader and through the REST API: one entry per kind in the quick tier, all in the thorough tier
-			if thorough || (ki+shift)%len(entries) == ei {
+			half := (len(entries) + 1) / 2
+			if thorough || (ki+shift)%half == ei/2 {
 				push(v.kind, e, fresh(), "expand")
 			}
-			if apiKinds[v.kind] && (thorough || (ki+shift+1)%len(entries) == ei) {
+			if apiKinds[v.kind] && (thorough || (ki+shift+1)%half == ei/2) {
 				push(v.kind, e, fresh(), "api")
 			}
 		}
@@ -517,9 +521,10 @@ func family(kind string) string {
 	return strings.SplitN(kind, "-", 2)[0]
 }
 
-// observedNotJudged: what a LISTED context's server makes the loader do next (follow a redirect, follow a Link: alternate header) is
-// recorded; whether the documents promise anything about it is for triage (see the report), the nested context IS judged.
-var observedNotJudged = map[string]bool{"carrier-redirect": true, "carrier-redirect-to-plain-http": true, "carrier-link": true}
+// observedNotJudged: probe kinds whose outcome is only recorded. Empty since the triage of the carrier probes: what a LISTED context's
+// server makes the loader do next (follow a redirect, also to plain HTTP, or a Link: alternate header) is a request for an unlisted
+// context like any other and is judged (genuine defect found with them, repaired in /repo: the loader's HTTP client now stays on the list).
+var observedNotJudged = map[string]bool{}
 
 // ctxExample is one context probe of the node evaluated last (goes into the sample of that node); seenCtx: sets already reported
 var ctxExample map[string]any
@@ -668,7 +673,7 @@ func evaluateContexts(r *ev.Run, res result, mode string) {
 				count("nonstrict_lookalike_context_fetched")
 			}
 		}
-		if ctxExample == nil && q.Kind == "prefix-userinfo" && q.Route == "loader" && rel == "other-host" {
+		if q.Kind == "prefix-userinfo" && q.Route == "loader" && (ctxExample == nil || rel == "other-host" && ctxExample["relation"] != "other-host") {
 			ctxExample = map[string]any{"remoteallowlist": c.V[fJSONLD], "route": q.Route, "kind": q.Kind, "derived_from": q.Entry, "url": q.URL, "relation": rel,
 				"loaded": p.OK, "error": p.Err, "requests_seen_at_the_transport": requested}
 		}
